@@ -97,7 +97,7 @@ def main():
     build(pid, flavors)
     binp = f"{B}/bin/{pid}"
     env = dict(os.environ)
-    env["ASAN_OPTIONS"] = "detect_leaks=0:abort_on_error=0:symbolize=1:allocator_may_return_null=1:detect_stack_use_after_return=0"
+    env["ASAN_OPTIONS"] = "detect_leaks=0:abort_on_error=0:symbolize=1:allocator_may_return_null=1:detect_stack_use_after_return=0:handle_abort=1"
     env["UBSAN_OPTIONS"] = "print_stacktrace=1"
 
     if replay:
